@@ -21,6 +21,13 @@ type VPtr struct {
 
 type VName string
 
+// the embedded pointer is the FIRST field (offset 0 of the container)
+type VPtrFirst struct {
+	*VPtrIn
+	N int64
+	S string
+}
+
 // a second level of pointer embedding with same-named, same-typed fields
 type VPtrDeepIn struct {
 	Z string
@@ -93,6 +100,10 @@ func VRejectPtrEmbedded() {
 	vrt.Assert("ptr-embedded.lens.name.U", vrt.Panics(func() { ForProduct1[VPtr, int32]("U") }))
 	vrt.Assert("ptr-embedded.reflector", vrt.Panics(func() { ForSpectrum1[VPtr, string]("V") }))
 	vrt.Assert("ptr-embedded.deep", vrt.Panics(func() { ForProduct1[VPtrDeep, int64]("W") }))
+	vrt.Assert("ptr-embedded.first.lens.U", vrt.Panics(func() { ForProduct1[VPtrFirst, int32]("U") }))
+	vrt.Assert("ptr-embedded.first.lens.V", vrt.Panics(func() { ForProduct1[VPtrFirst, string]("V") }))
+	vrt.Assert("ptr-embedded.first.lens.type", vrt.Panics(func() { ForProduct1[VPtrFirst, int32]() }))
+	vrt.Assert("ptr-embedded.first.reflector", vrt.Panics(func() { ForSpectrum1[VPtrFirst, int32]("U") }))
 	vrt.Cover("reject-ptr.done")
 }
 
